@@ -128,6 +128,7 @@ func oneRun(kind string, r *rand.Rand, ns, nc int, caps []int, maxSends, maxCycl
 			continue
 		}
 		c, l, rr, cycles, leave := c, newLog(), rand.New(rand.NewSource(r.Int63())), 1+r.Intn(maxCycles), r.Intn(3) == 0
+		l2, rr2seed := newLog(), r.Int63()
 		work.Add(1)
 		go func() {
 			defer work.Done()
@@ -142,9 +143,24 @@ func oneRun(kind string, r *rand.Rand, ns, nc int, caps []int, maxSends, maxCycl
 				}
 				pause(rr, true)
 				pause(rr, true)
-				l.log("UnsubBegin", c, 0, 0)
+				// sometimes a second owner of the subscription unsubscribes concurrently
+				var twin sync.WaitGroup
+				if rr.Intn(2) == 0 {
+					twin.Add(1)
+					go func() {
+						defer twin.Done()
+						if rr2seed%2 == 0 {
+							runtime.Gosched()
+						}
+						l2.log("UnsubBegin", c, 0, 2)
+						sub.Unsubscribe()
+						l2.log("UnsubEnd", c, 0, 2)
+					}()
+				}
+				l.log("UnsubBegin", c, 0, 1)
 				sub.Unsubscribe()
-				l.log("UnsubEnd", c, 0, 0)
+				l.log("UnsubEnd", c, 0, 1)
+				twin.Wait()
 			}
 		}()
 		lr, rr2, slow := newLog(), rand.New(rand.NewSource(r.Int63())), r.Intn(3) == 0
@@ -209,11 +225,11 @@ func stats(all []event_) runStats {
 		case "SendEnd":
 			delete(sending, e.P)
 		case "UnsubBegin":
-			unsubbing[e.P] = true
+			unsubbing[e.P*10+e.N] = true
 			st.races += len(sending)
 			st.ops++
 		case "UnsubEnd":
-			delete(unsubbing, e.P)
+			delete(unsubbing, e.P*10+e.N)
 		case "SubBegin", "RecvEnd":
 			st.ops++
 		}
@@ -261,6 +277,25 @@ func runRecord(path, kind string, seed int64, runs, ns int, caps []int, maxSends
 			}
 		}
 	}
+	// XF: two owners unsubscribe the same subscription while its removal is held up (see forced.go)
+	forced := 0
+	for i := 0; i < 6 && caps[0] == 0; i++ {
+		evs, returnedEarly := forcedDoubleUnsub(kind)
+		if evs == nil {
+			continue
+		}
+		for _, e := range evs {
+			tr.Emit(e)
+			sum.Count(e.Op)
+		}
+		sum.Steps += len(evs)
+		sum.Traces++
+		forced++
+		if returnedEarly {
+			sum.Count("second-unsubscribe-returned-before-removal")
+		}
+	}
+	sum.Extra["forced_double_unsubscribe_runs"] = forced
 	sum.Extra["racing_unsub_send_pairs"] = races
 	sum.Rule = "evaluations = Subscribe/Unsubscribe/Send calls and channel receives executed on the real feed; distinct = distinct logged histories (sequence of op,process) that contain at least one Unsubscribe overlapping a Send"
 }
